@@ -152,3 +152,18 @@ def awaited(fn, create_bb):
         if def_of(pt).endswith("future::Future::poll") and inst_of(pt) == inst + "::{closure#0}":
             out.append(bi)
     return out
+
+
+def skip_switches(f, cfg, body, head, site_bb):
+    """switch terminators inside the loop `body` (head excluded) from which the site is still reachable in this
+    iteration and which have a successor, inside the loop, from which it is not: the branches that can route an
+    iteration around the site.  Returns [(block, terminator)]."""
+    out = []
+    for b2 in sorted(body):
+        t2 = f.blocks[b2]["t"]
+        if t2["k"] != "switch" or b2 == head or not cfg.reaches(b2, [site_bb], avoid=[head]):
+            continue
+        succs = [x for _, x in t2["targets"]] + ([t2["otherwise"]] if t2.get("otherwise") is not None else [])
+        if any(x in body and x != site_bb and not cfg.reaches(x, [site_bb], avoid=[head]) for x in succs):
+            out.append((b2, t2))
+    return out
